@@ -224,10 +224,12 @@ def to_records(sc, raw, scale=None):
     i, n = 0, len(raw)
     constructed = False
     last_kind = None
+    nconfig = 0       # configuration records received so far
     while i < n:
         ev = raw[i]
         k = ev[0]
         if k == 'config':
+            nconfig += 1
             i += 1
             continue
         if k in ('ts', 'cond'):
@@ -291,7 +293,7 @@ def to_records(sc, raw, scale=None):
                 last_kind = 'step'
             continue
         if k == 'emit':
-            recs.append({'ev': 'row', 'time': tick(ev[1]), 'vals': ev[2]})
+            recs.append({'ev': 'row', 'time': tick(ev[1]), 'vals': ev[2], 'cfg': nconfig})
             constructed = True
             i += 1
             last_kind = 'apply'
